@@ -184,6 +184,9 @@ def check_state(run, A):
                 run.violation('R-STATE', f'{fn.qual} writes {attr} of a class/module', fn.loc(e.node), norm_stmt(e.node),
                               construct=f'R-STATE::{fn.qual}::classattr::{attr}')
                 continue
+            if base is not selfp and strip_views(base).op in ('caught', 'exc'):
+                run.ok('R-STATE', f'{fn.qual} sets {attr} on the exception it is handling', fn.loc(e.node), 'the exception object was created by the failing call, not by the caller')
+                continue
             if base is not selfp:
                 # attribute store on some other object: allowed only on objects created in this function
                 ctx = ev.entry(fn)
